@@ -40,7 +40,9 @@ var c07benign = map[string]string{"int": "1", "arr": "[1, 2]", "obj": "{a: 1}", 
 
 func c07templates() []c07tmpl {
 	var ts []c07tmpl
-	add := func(name, text string, allow ...string) { ts = append(ts, c07tmpl{name: name, text: text, allow: allow}) }
+	add := func(name, text string, allow ...string) {
+		ts = append(ts, c07tmpl{name: name, text: text, allow: allow})
+	}
 	for _, op := range []string{"+", "-", "*", "/", "//", "%", "**", "==", "!=", "<", ">", "<=", ">=", "<=>", "<<", ">>", "/&", "/|", "/^", "===", "!=="} {
 		add("infix "+op, "(«0:int» "+op+" «1:int»)")
 	}
